@@ -55,12 +55,14 @@ type Frame struct {
 	predPC     map[edgeKey]*Term
 	iterByLoop map[int]*IterVal
 	loopMeasure map[*ssa.BasicBlock]*Term
+	loopEntry   map[int]*State // loop ordinal -> state in which the loop was entered (for verifLoopSame)
 }
 
 type retPoint struct {
 	st   *State
 	vals []*Term
 	pos  token.Pos
+	nfacts int // number of facts when the return point was reached
 }
 
 type unsupportedErr struct{ msg string }
@@ -378,8 +380,13 @@ func (c *FnCtx) checkPkgInv(st *State, pos token.Pos, where string) {
 // checkReturn emits postcondition obligations at one return point.
 func (c *FnCtx) checkReturn(fr *Frame, rp retPoint) {
 	e := c.eng
+	if fr.isTop && rp.nfacts > 0 && rp.nfacts <= len(c.facts) {
+		// facts generated by code executed after this return point was reached are guarded by other paths
+		c.gap = [2]int{rp.nfacts, len(c.facts)}
+		defer func() { c.gap = [2]int{} }()
+	}
 	// vacuity guard: this return point should be reachable under the accumulated assumptions
-	c.retCovers = append(c.retCovers, &Obligation{Name: fmt.Sprintf("%s:cover:ret%d", c.top.RelString(c.top.Pkg.Pkg), len(c.retCovers)), Kind: "cover",
+	c.retCovers = append(c.retCovers, &Obligation{Gap: c.gap, PC: rp.st.pc, Name: fmt.Sprintf("%s:cover:ret%d", c.top.RelString(c.top.Pkg.Pkg), len(c.retCovers)), Kind: "cover",
 		Func: c.top.RelString(c.top.Pkg.Pkg), Goal: e.ts.Not(rp.st.pc), NFacts: len(c.facts), Ctx: c, Src: "return point reachable"})
 	if fr.fc == nil {
 		if c.wroteGlobals(fr, rp.st) {
@@ -635,6 +642,7 @@ func (c *FnCtx) enterLoop(fr *Frame, h *ssa.BasicBlock, ord int, st *State) *Sta
 		lc = fr.fc.Loops[ord]
 	}
 	// 1. invariants hold on entry
+	delete(fr.loopEntry, ord) // verifLoopSame: on entry the loop-entry state is the current one
 	c.loopInvs(fr, h, ord, lc, st, "inv-init")
 	// 2. discover what the body writes (dry run; no obligations, facts discarded)
 	var body []*ssa.BasicBlock
@@ -665,6 +673,8 @@ func (c *FnCtx) enterLoop(fr *Frame, h *ssa.BasicBlock, ord int, st *State) *Sta
 	c.noObl--
 	c.facts = c.facts[:nf]
 	c.triggers = c.triggers[:nf]
+	c.factGuarded = c.factGuarded[:nf]
+	c.factPC = c.factPC[:nf]
 	if c.specSeen != nil {
 		c.specSeen = savedSeen
 	}
@@ -716,8 +726,12 @@ func (c *FnCtx) enterLoop(fr *Frame, h *ssa.BasicBlock, ord int, st *State) *Sta
 		srt := c.heapSort(hname)
 		objs := wl.heaps[hname]
 		precise := !wl.whole[hname]
+		freshLayer := false
 		if lc != nil {
 			for _, hv := range lc.Havoc {
+				if hv == "fresh-maps" && (strings.HasPrefix(hname, "Mdom:map[string]interface{}") || strings.HasPrefix(hname, "Msel:map[string]interface{}") || strings.HasPrefix(hname, "Mlen:map[string]interface{}")) && c.entryWM != nil {
+					freshLayer = true
+				}
 				if hv == "maps" && (strings.HasPrefix(hname, "Mdom:map[string]interface{}") || strings.HasPrefix(hname, "Msel:map[string]interface{}") || strings.HasPrefix(hname, "Mlen:map[string]interface{}")) {
 					precise = false
 				}
@@ -751,6 +765,17 @@ func (c *FnCtx) enterLoop(fr *Frame, h *ssa.BasicBlock, ord int, st *State) *Sta
 		}
 		_, es := srt.ArrParts()
 		switch {
+		case freshLayer:
+			// "havoc fresh-maps": every Map allocated since the verified function was entered may have changed, every
+			// older one is unchanged; each store in the body carries a loop-frame obligation that its target is that young
+			old := c.heap(st, hname, srt)
+			nh := ts.Fresh(fmt.Sprintf("lp%d!F!%s", ord, hname), srt)
+			c.layers[nh.id] = &layerInfo{wm: c.entryWM, old: old, fresh: true}
+			out.heaps[hname] = nh
+			c.loopAssume = append(c.loopAssume, loopAssumption{fr: fr, head: h, heap: hname, wm: c.entryWM})
+			if c.writeLog != nil {
+				c.writeLog.whole[hname] = true
+			}
 		case !precise:
 			c.setHeapWhole(out, hname, ts.Fresh(fmt.Sprintf("lp%d!H!%s", ord, hname), srt))
 		case layered:
@@ -777,6 +802,10 @@ func (c *FnCtx) enterLoop(fr *Frame, h *ssa.BasicBlock, ord int, st *State) *Sta
 		}
 	}
 	// 4. assume invariants
+	if fr.loopEntry == nil {
+		fr.loopEntry = map[int]*State{}
+	}
+	fr.loopEntry[ord] = st
 	c.loopInvs(fr, h, ord, lc, out, "assume")
 	if lc != nil && lc.Decr != nil {
 		if fr.loopMeasure == nil {
@@ -879,6 +908,8 @@ func (c *FnCtx) loopInvs(fr *Frame, h *ssa.BasicBlock, ord int, lc *LoopContract
 			c.addFact(st, r)
 		} else {
 			c.addObl(st, mode, fmt.Sprintf("loop%d#%d%s", ord, i, c.curLatch), r, headPos(h), inv.Raw)
+			// the clauses are checked in order: a later clause may rely on the earlier ones at the same point
+			c.assumeChecked(st, r)
 		}
 	}
 }
@@ -940,7 +971,7 @@ func (c *FnCtx) execBlock(fr *Frame, b *ssa.BasicBlock, st *State, emit func(*ss
 			for i, r := range x.Results {
 				vals = append(vals, c.toTerm(st, fr.val(r), fr.fn.Signature.Results().At(i).Type()))
 			}
-			fr.rets = append(fr.rets, retPoint{st: st, vals: vals, pos: x.Pos()})
+			fr.rets = append(fr.rets, retPoint{st: st, vals: vals, pos: x.Pos(), nfacts: len(c.facts)})
 			return
 		case *ssa.Panic:
 			c.addObl(st, "panic", fmt.Sprintf("#%d", c.kindOrd["panic"]), ts.Bool(false), x.Pos(), "explicit panic reachable")
